@@ -1,3 +1,7 @@
--- This module serves as the root of the `Libvna` library.
--- Import modules here that should be built as part of the library.
-import Libvna.Basic
+-- Root of the `Libvna` library: everything `lake build` has to check.
+import Libvna.Gen.Conv2All
+import Libvna.Props.C04
+import Libvna.Props.C05
+import Libvna.Props.C10
+import Libvna.Props.C15
+import Libvna.Driver.Main
